@@ -10,6 +10,8 @@ St == CASE st.part = "N" -> [cfg |-> st.cfg, warm |-> st.warm, tr |-> st.tr, k |
                                                       exts |-> [i \in 1..Len(st.cert.exts) |->
                                                                  [pub |-> st.cert.exts[i].pub, sby |-> st.cert.exts[i].sig.by,
                                                                   sover |-> st.cert.exts[i].sig.over]]]]
+       [] st.part = "U" -> [via |-> st.via, sec |-> st.sec, mux |-> st.mux, role |-> st.role, named |-> st.named,
+                            ans |-> st.ans, done |-> st.done, ok |-> st.ok, rem |-> st.rem]
        [] st.part = "H" -> [path |-> st.path, ownerA |-> st.ownerA, phase |-> st.phase, res |-> st.res,
                             inbound |-> st.inbound, arrived |-> st.arrived]
        [] OTHER -> [outs |-> st.outs, warm |-> st.warm, warmed |-> st.warmed, done |-> st.done, res |-> st.res, visible |-> st.visible,
@@ -19,4 +21,5 @@ MCInitN == InitN /\ PrintT(<<"VFINIT", ToJson(St)>>)
 MCInitT == InitT /\ PrintT(<<"VFINIT", ToJson(St)>>)
 MCInitS == InitS /\ PrintT(<<"VFINIT", ToJson(St)>>)
 MCInitH == InitH /\ PrintT(<<"VFINIT", ToJson(St)>>)
+MCInitU == InitU /\ PrintT(<<"VFINIT", ToJson(St)>>)
 =============================================================================
